@@ -255,13 +255,34 @@ def uri(dirpath, f, p, slash=True, amode=None):
     return fn + "::" + ("/" if slash else "") + "/".join(cs)
 
 
+def call_creator(u, op):
+    """create the collection of stamp k at u through one of the creators, asking for append / write mode through
+    `mode=` or through the deprecated alias `append=` (or not at all: the documented default is write mode)"""
+    import cooler
+    from cooler.create import create, create_from_unordered
+    via, how = op.get("via", "create_cooler"), op.get("how", "mode")
+    if op["mode"] == "a":
+        kw = {"append": True} if how == "append" and via in ("create", "unordered") else {"mode": "a"}
+    else:
+        kw = {"append": False} if how == "append" and via in ("create", "unordered") else ({} if how == "default" else {"mode": "w"})
+    df = pixels_df(op["k"])
+    chunks = [df.iloc[[i]] for i in reversed(range(len(df)))]          # unsorted one-row chunks
+    if via == "create":
+        return create(u, bins_df(), df, **kw)
+    if via == "unordered":
+        return create_from_unordered(u, bins_df(), iter(chunks), **kw)
+    if via == "cc_unordered":
+        return cooler.create_cooler(u, bins_df(), iter(chunks), ordered=False, **kw)
+    return cooler.create_cooler(u, bins_df(), df, **kw)
+
+
 def apply_op(dirpath, op):
     """execute one operation of a history on the real code; returns the outcome enum"""
     import cooler
     from cooler import fileops
     if op["op"] == "create":
         u = uri(dirpath, op["f"], op["p"], op.get("s1", True), op.get("a1"))
-        return guarded(cooler.create_cooler, u, bins_df(), pixels_df(op["k"]), mode=op["mode"])[0]
+        return guarded(call_creator, u, op)[0]
     if op["op"] == "setattr":
         def _set():
             with h5py.File(fpath(dirpath, op["f"]), "r+") as h:
